@@ -536,3 +536,109 @@ func isErrorCodeReturn(r *ssa.Return) bool {
 	})
 	return len(pass) > 0 && guardedBy(f, r, pass)
 }
+
+// normEach rewrites the two ways of building "one element per item of a
+// sequence" to one form, each[E]:
+//
+//	⊕(make([]T, 0); [E][:])          (append in a loop to an empty slice)
+//	make([]T, n){[*] ← E}            (indexed fill of a pre-sized slice)
+func normEach(s string) string {
+	for guard := 0; guard < 20; guard++ {
+		changed := false
+		if i := strings.Index(s, "⊕(make([]"); i >= 0 {
+			open := i + len("⊕")
+			if j := matchParen(s, open); j > 0 {
+				inner := s[open+1 : j]
+				if k := topLevelIndex(inner, "; "); k > 0 {
+					init, elems := inner[:k], inner[k+2:]
+					if strings.HasSuffix(init, ", 0)") && strings.HasPrefix(elems, "[") && strings.HasSuffix(elems, "][:]") {
+						s = s[:i] + "each[" + elems[1:len(elems)-4] + "]" + s[j+1:]
+						changed = true
+					}
+				}
+			}
+		}
+		if !changed {
+			if i := strings.Index(s, "){[*] ← "); i >= 0 {
+				// find the start of this make(
+				st := strings.LastIndex(s[:i], "make([]")
+				if st >= 0 && matchParen(s, st+4) == i {
+					bo := i + 1
+					if bc := matchBrace(s, bo); bc > 0 {
+						body := s[bo+1 : bc]
+						if topLevelIndex(body, "; ") < 0 {
+							s = s[:st] + "each[" + strings.TrimPrefix(body, "[*] ← ") + "]" + s[bc+1:]
+							changed = true
+						}
+					}
+				}
+			}
+		}
+		if !changed {
+			break
+		}
+	}
+	return s
+}
+
+func matchParen(s string, open int) int {
+	if open >= len(s) || s[open] != '(' {
+		return -1
+	}
+	d := 0
+	for k := open; k < len(s); k++ {
+		switch s[k] {
+		case '(':
+			d++
+		case ')':
+			d--
+			if d == 0 {
+				return k
+			}
+		}
+	}
+	return -1
+}
+
+func matchBrace(s string, open int) int {
+	if open >= len(s) || s[open] != '{' {
+		return -1
+	}
+	d := 0
+	for k := open; k < len(s); k++ {
+		switch s[k] {
+		case '{':
+			d++
+		case '}':
+			d--
+			if d == 0 {
+				return k
+			}
+		}
+	}
+	return -1
+}
+
+func topLevelIndex(s, sep string) int {
+	d := 0
+	for k := 0; k+len(sep) <= len(s); k++ {
+		switch s[k] {
+		case '(', '[', '{':
+			d++
+		case ')', ']', '}':
+			d--
+		}
+		if d == 0 && strings.HasPrefix(s[k:], sep) {
+			return k
+		}
+	}
+	return -1
+}
+
+func normEachAll(xs []string) []string {
+	out := make([]string, len(xs))
+	for i, x := range xs {
+		out[i] = normEach(x)
+	}
+	return out
+}
